@@ -786,6 +786,8 @@ func (u *unit) runCase(j int64) (res caseRes) {
 	kind := ""
 
 	k, msg, where := guardCall(func() {
+		inject(u.Base + j)
+
 		if u.custom != nil {
 			kind = u.custom(in, vals)
 
@@ -893,4 +895,61 @@ func (u *unit) caseKey(j int64) string {
 	}
 
 	return k + "|" + strings.Join(idx, ",")
+}
+
+// inject is the self-test seam of the watchdog: C07_SEQ_INJECT lists
+// "hang@<ordinal>", "stack@<ordinal>", "oom@<ordinal>" entries; the named case
+// then spins forever, recurses without end or allocates without end inside the
+// guarded call, exactly as a defective library call would. Unset in every
+// registered check.
+func inject(k int64) {
+	spec := os.Getenv("C07_SEQ_INJECT")
+	if spec == "" {
+		return
+	}
+
+	for _, e := range strings.Split(spec, ",") {
+		var (
+			what string
+			ord  int64
+		)
+
+		if i := strings.IndexByte(e, '@'); i > 0 {
+			what = e[:i]
+			fmt.Sscan(e[i+1:], &ord)
+		}
+
+		if ord != k {
+			continue
+		}
+
+		switch what {
+		case "hang":
+			for x := 0; ; x++ {
+				injectSink = x
+			}
+		case "stack":
+			injectSink = recurse(1)
+		case "oom":
+			var keep [][]byte
+			for {
+				b := make([]byte, 256<<20)
+				b[len(b)-1] = 1
+
+				keep = append(keep, b)
+				injectSink = len(keep)
+			}
+		}
+	}
+}
+
+var injectSink int
+
+//go:noinline
+func recurse(n int) int {
+	var pad [256]byte
+
+	pad[n%256] = byte(n)
+
+	return recurse(n+1) + int(pad[0])
 }
